@@ -3,10 +3,11 @@
   emits into a locking subscriber, whatever follows it in the pipe.
   Proved for arbitrary chains of rows satisfying the row predicate; the predicate is decided by the
   kernel on the table regenerated from /repo's source on every run.
-  Pinned tree: five pass-through operators are built with the unsafe constructor
-  (`knownUnsafePassThrough`); directly downstream of a multi-feeder stage they make that stage emit
-  into a non-locking subscriber — witness below, replayed on the real code by the check
-  (`Merge |> TapOnFinalize`, callbacks overlap).
+  Pinned tree: five pass-through operators were built with the unsafe constructor; directly
+  downstream of a multi-feeder stage they made that stage emit into a non-locking subscriber
+  (`Merge |> TapOnFinalize`: callbacks overlapped; with `Distinct` downstream the process aborted
+  with "concurrent map writes"). Repaired in /repo (fix: pass-through operators use the safe
+  constructor); the strict predicate now holds for every row.
 -/
 import RoProofs.Chain
 import RoGen.Catalogue
@@ -16,9 +17,9 @@ open Ro.Facts
 /-- the tie: every row of the regenerated table is fine or a listed known deviation -/
 theorem table_ok : RoGen.Catalogue.table.all c02RowOk = true := by decide
 
-/-- the rows that violate the strict predicate are exactly the listed ones -/
-theorem strict_violations :
-    (RoGen.Catalogue.table.filter (fun r => !c02RowStrict r)).map (·.name) = knownUnsafePassThrough := by decide
+/-- every row of the regenerated table satisfies the STRICT predicate: every multi-feeder operator
+    and every pass-through operator is built with a locking constructor -/
+theorem table_strict : RoGen.Catalogue.table.all c02RowStrict = true := by decide
 
 /-- full statement (holds for any tree whose table satisfies the strict predicate) -/
 theorem chain_serialized (r : OpFact) (rest : List OpFact)
@@ -26,23 +27,22 @@ theorem chain_serialized (r : OpFact) (rest : List OpFact)
     ∃ c, emitMode (r :: rest) = some c ∧ serializedMode c = true :=
   multiFeeder_emits_serialized r rest hr hrest hm
 
-/-- what is proved for the pinned tree: chains that avoid the listed unsafe pass-throughs -/
-theorem chain_serialized_partial (r : OpFact) (rest : List OpFact)
+/-- C02 (b) for the tree under check: every chain of catalogue operators, every stage that can be
+    fed from several goroutines, whatever follows it -/
+theorem chain_serialized_table (r : OpFact) (rest : List OpFact)
     (hr : r ∈ RoGen.Catalogue.table) (hrest : ∀ q ∈ rest, q ∈ RoGen.Catalogue.table)
-    (hkr : knownUnsafePassThrough.contains r.name = false)
-    (hkrest : ∀ q ∈ rest, knownUnsafePassThrough.contains q.name = false)
     (hm : r.multiFeeder = true) :
     ∃ c, emitMode (r :: rest) = some c ∧ serializedMode c = true := by
-  have hall := List.all_eq_true.mp table_ok
-  exact multiFeeder_emits_serialized_partial r rest (hall r hr) (fun q hq => hall q (hrest q hq)) hkr hkrest hm
+  have hall := List.all_eq_true.mp table_strict
+  exact multiFeeder_emits_serialized r rest (hall r hr) (fun q hq => hall q (hrest q hq)) hm
 
 def row (n : String) : Option OpFact := RoGen.Catalogue.table.find? (·.name == n)
 
-/-- witness of the deviation: `MergeAll |> TapOnFinalize` — MergeAll is multi-feeder and emits into
-    TapOnFinalize's unsafe subscriber -/
-theorem unsafe_passthrough_witness :
+/-- regression example: `MergeAll |> TapOnFinalize` — MergeAll is multi-feeder and now emits into
+    TapOnFinalize's LOCKING subscriber (it was the unsafe one before the repair) -/
+theorem passthrough_regression :
     (do let a ← row "MergeAll"; let b ← row "TapOnFinalize"; pure (a.multiFeeder, emitMode [a, b]))
-      = some (true, some Ctor.unsafeC) := by decide
+      = some (true, some Ctor.safeC) := by decide
 
 -- non-vacuity: a real multi-feeder chain that is covered
 example : (do let a ← row "MergeAll"; let b ← row "MapIWithContext"; pure (a.multiFeeder, emitMode [a, b]))
@@ -51,7 +51,7 @@ example : (do let a ← row "MergeAll"; let b ← row "MapIWithContext"; pure (a
 end Ro.C02b
 
 #print axioms Ro.C02b.table_ok
-#print axioms Ro.C02b.strict_violations
+#print axioms Ro.C02b.table_strict
 #print axioms Ro.C02b.chain_serialized
-#print axioms Ro.C02b.chain_serialized_partial
-#print axioms Ro.C02b.unsafe_passthrough_witness
+#print axioms Ro.C02b.chain_serialized_table
+#print axioms Ro.C02b.passthrough_regression
